@@ -129,6 +129,20 @@ def r1_decorator(program, rep):
     offs = [("slice", o, ("const", None), ("const", None)) for o in (
         ("binop", "Add", ("const", 1), NARGS),
         ("binop", "Add", NARGS, ("const", 1)))]
+    def norm_slices(t):
+        # x[a:][b:] is x[a + b:] for a constant a >= 0 (b is a length)
+        if not isinstance(t, tuple) or not t or t[0] == "const":
+            return t
+        t = tuple(norm_slices(x) if isinstance(x, tuple) else x for x in t)
+        N = ("const", None)
+        if t[0] == "item" and t[2][0] == "slice" and t[2][2:] == (N, N) and \
+                t[1][0] == "item" and t[1][2][0] == "slice" and \
+                t[1][2][2:] == (N, N) and t[1][2][1][0] == "const" and \
+                isinstance(t[1][2][1][1], int) and t[1][2][1][1] >= 0:
+            return ("item", t[1][1], ("slice", (
+                "binop", "Add", t[1][2][1], t[2][1]), N, N))
+        return t
+    lay = [norm_slices(x) for x in lay]
     ok0 = False
     DEFS = None
     if lay and lay[0][0] == "all" and lay[0][1][0] == "zip":
@@ -168,6 +182,10 @@ def r1_decorator(program, rep):
     # Required scan raises before the call
     okr = False
     E = ("elem", ("items", D))
+    if not any(raise_name(r) == "TypeError" for r in raises_of(fn)):
+        raise AnalysisError("decorator wrapper: the check for parameters "
+                            "left Required was not found in the wrapper's "
+                            "own body; that form is not analysed")
     for r in raises_of(fn):
         if raise_name(r) != "TypeError":
             continue
@@ -253,8 +271,10 @@ def r2_pairing(program, rep):
     inst = qual(ex)
     fl = Flow(ex)
     cfg = fl.cfg
-    pops = [c for c in calls_in(ex, "pop")
-            if chain(call_name(c)[1]) == "self.stack"]
+    from ..util import site_in
+    pops = [c for c in ast.walk(ex) if isinstance(c, ast.Call) and
+            call_name(c)[0] == "pop" and
+            chain(call_name(c)[1]) == "self.stack"]
     ok = len(pops) == 1
     in_assert = False
     if ok:
@@ -263,7 +283,7 @@ def r2_pairing(program, rep):
             if isinstance(n, ast.Assert):
                 in_assert = True
             n = getattr(n, "_parent", None)
-        pn = cfg.node_containing(pops[0])
+        pn = site_in(ex, cfg, pops[0])
         allpaths = cfg.must_pass(cfg.entry, lambda x: x is pn,
                                  targets=[cfg.exit, cfg.raise_exit])
     rep.check(ok and not in_assert, "C18-R2", inst, "the context is popped "
@@ -277,13 +297,20 @@ def r2_pairing(program, rep):
     cbs = [n for n in ast.walk(ex) if isinstance(n, ast.For) and
            unparse(n.iter) == "self._before_close"]
     okc = False
+    if ok and not cbs:
+        raise AnalysisError("Context.__exit__: the loop running the "
+                            "before-close callbacks was not found in the "
+                            "form analysed")
     if ok and len(cbs) == 1:
         call = [c for c in calls_in(cbs[0], chain(cbs[0].target))]
-        okc = len(call) == 1 and cfg.reaches(cfg.node_containing(call[0]),
-                                             pn) and \
-            not cfg.reaches(pn, cfg.node_containing(call[0])) and \
-            cfg.must_pass(cfg.entry, lambda x: x is cfg.stmt_node[
-                id(cbs[0])], targets=[pn])
+        okc = len(call) == 1
+        if okc:
+            cn_ = site_in(ex, cfg, call[0])
+            ln_ = site_in(ex, cfg, cbs[0])
+            okc = cfg.reaches(cn_, pn) and not cfg.reaches(pn, cn_) and \
+                cfg.must_pass(cfg.entry, lambda x: x is ln_ or (
+                    ln_.kind != "stmt" and x is cfg.stmt_node.get(
+                        id(cbs[0]))), targets=[pn])
     rep.check(okc, "C18-R2", inst, "the registered callbacks run on every "
               "exit, before the pop (the stop signal still sees the block's "
               "app id)", construct="callbacks before pop", node=ex,
@@ -553,7 +580,48 @@ def r5_connection(program, rep):
     FRAME = ("get", BCONNS, ("tuple", cab, frm))
     snd = calls_in(b, "send_scp")
     okb = len(snd) == 1
+    via_helper = None
     if okb:
+        n_ = B.cfg.node_containing(snd[0])
+        ct = B.term(snd[0].func.value, n_)
+        if ct[0] in ("call", "callv") and ct[1][0] == "local" and \
+                ct[1][1] in B._nested:
+            via_helper = B._nested[ct[1][1]]
+    if via_helper is not None:
+        # the look-up is in a helper: the keys it tries, in order
+        views = B.inners(via_helper)
+        if len(views) != 1:
+            raise AnalysisError("BMPController._send_scp: connection helper "
+                                "called from several places")
+        hv = views[0]
+        tried = None
+        for lp in ast.walk(via_helper):
+            if not isinstance(lp, ast.For):
+                continue
+            it = hv.term(lp.iter, hv.cfg.loop_head[id(lp)])
+            if it[0] != "tuple":
+                continue
+            E = ("elem", it)
+            rets_ = [r for r in ast.walk(lp) if isinstance(r, ast.Return)
+                     and r.value is not None]
+            if len(rets_) == 1:
+                rn_ = hv.cfg.node_of(rets_[0])
+                rt_ = hv.term(rets_[0].value, rn_)
+                facts_ = hv.all_facts(rn_)
+                if rt_ in (("get", BCONNS, E), ("item", BCONNS, E)) and \
+                        (is_none(rt_), False) in facts_ and not any(
+                            isinstance(x, (ast.Break, ast.Continue))
+                            for x in ast.walk(lp)):
+                    tried = list(it[1:])
+        if tried is None:
+            raise AnalysisError("BMPController._send_scp: the connection "
+                                "helper is in a form that is not analysed")
+        n_ = B.cfg.node_containing(snd[0])
+        a_ = [B.term(x, n_) for x in snd[0].args]
+        okb = tried == [("tuple", cab, frm, brd), ("tuple", cab, frm)] and \
+            a_[1:] == [("const", 0), ("const", 0), brd,
+                       ("star", ("param", b.args.vararg.arg))]
+    elif okb:
         for hyp, want in (((is_none(DIRECT), False), DIRECT),
                           ((is_none(DIRECT), True), FRAME)):
             Hb = B.under(hyp)
@@ -587,6 +655,9 @@ def r6_link(program, rep):
     rep.note("LINK: %d stdlib attribute references checked" % n)
     rep.floor("C18-R6", 50)
 
+
+r2_pairing.helper_aware = True
+r5_connection.helper_aware = True
 
 def check(program, rep):
     program.module(CX)
